@@ -339,47 +339,71 @@ func c11BytesJob(a c11Arg) (interface{}, error) {
 	out := &c11Res{Replies: map[string]int64{}}
 	size, setup := c11Setup(a.State)
 	img := cachedMkfs(size)
-	start, total := 0, -1
-	for start != total {
+	// as in the structural part: the state is built once, every message meets it on a fresh server instance
+	type job struct {
+		prog, proc uint32
+		b          []byte
+	}
+	var jobs []job
+	var stImg *vdisk.Image
+	bres := vrt.Run(vrt.Config{}, func() {
+		w := NewWorld(img)
+		w.Disk.Record = false
+		w.Model.AllowImplFail = true
+		for _, o := range setup {
+			w.Do(o)
+		}
+		valid := c11ValidArgs(w)
+		regs := append(nfstypes.NFS_PROGRAM_NFS_V3_regs(w.Srv), nfstypes.MOUNT_PROGRAM_MOUNT_V3_regs(w.Srv)...)
+		for _, rg := range regs {
+			var b []byte
+			if rg.Prog == nfstypes.NFS_PROGRAM {
+				if v, ok := valid[rg.Proc]; ok {
+					b, _ = xdr.EncodeBuf(v)
+				}
+			} else if rg.Proc == nfstypes.MOUNTPROC3_MNT || rg.Proc == nfstypes.MOUNTPROC3_UMNT {
+				p := nfstypes.Dirpath3("/export")
+				b, _ = xdr.EncodeBuf(&p)
+			}
+			if a.Proc != "" && fmt.Sprintf("%d.%d", rg.Prog, rg.Proc) != a.Proc {
+				continue
+			}
+			jobs = append(jobs, job{rg.Prog, rg.Proc, b})
+			for _, m := range c11Mutants(b) {
+				jobs = append(jobs, job{rg.Prog, rg.Proc, m})
+			}
+		}
+		w.Flush()
+		vrt.Quiesce()
+		w.Srv.ShutdownNfs()
+		stImg = w.Disk.Snapshot().Flatten()
+	})
+	if v := VerdictViolation(&bres, "C11", "building state "+a.State); v != nil {
+		out.Viols = append(out.Viols, v)
+		return out, nil
+	}
+	start := 0
+	for start < len(jobs) {
 		cur := -1
 		var curDesc string
 		res := vrt.Run(vrt.Config{Horizon: 100_000_000}, func() {
-			w := NewWorld(img)
-			for _, o := range setup {
-				w.Do(o)
-			}
-			valid := c11ValidArgs(w)
-			type job struct {
-				proc uint32
-				h    func(*xdr.XdrState) (xdr.Xdrable, error)
-				b    []byte
-			}
-			var jobs []job
-			regs := append(nfstypes.NFS_PROGRAM_NFS_V3_regs(w.Srv), nfstypes.MOUNT_PROGRAM_MOUNT_V3_regs(w.Srv)...)
-			for _, rg := range regs {
-				var b []byte
-				if rg.Prog == nfstypes.NFS_PROGRAM {
-					if v, ok := valid[rg.Proc]; ok {
-						b, _ = xdr.EncodeBuf(v)
-					}
-				} else if rg.Proc == nfstypes.MOUNTPROC3_MNT || rg.Proc == nfstypes.MOUNTPROC3_UMNT {
-					p := nfstypes.Dirpath3("/export")
-					b, _ = xdr.EncodeBuf(&p)
-				}
-				if a.Proc != "" && fmt.Sprintf("%d.%d", rg.Prog, rg.Proc) != a.Proc {
-					continue
-				}
-				jobs = append(jobs, job{rg.Proc, rg.Handler, b})
-				for _, m := range c11Mutants(b) {
-					jobs = append(jobs, job{rg.Proc, rg.Handler, m})
-				}
-			}
-			total = len(jobs)
-			for i := start; i < len(jobs); i++ {
+			for i := start; i < len(jobs) && i < start+256; i++ {
 				j := jobs[i]
 				cur = i
-				curDesc = fmt.Sprintf("procedure %d, argument bytes %x", j.proc, j.b)
-				resx, err := j.h(xdr.MakeReader(j.b))
+				curDesc = fmt.Sprintf("program %d procedure %d, argument bytes %x", j.prog, j.proc, j.b)
+				d := vdisk.New(stImg)
+				d.Record = false
+				w := &World{Disk: d, Vars: fsx.NewVars()}
+				w.Srv = nfs.MakeNfs(d)
+				var h func(*xdr.XdrState) (xdr.Xdrable, error)
+				for _, rg := range append(nfstypes.NFS_PROGRAM_NFS_V3_regs(w.Srv), nfstypes.MOUNT_PROGRAM_MOUNT_V3_regs(w.Srv)...) {
+					if rg.Prog == j.prog && rg.Proc == j.proc {
+						h = rg.Handler
+					}
+				}
+				vrt.SetHorizon(vrt.Steps() + 400_000)
+				resx, err := h(xdr.MakeReader(j.b))
+				vrt.SetHorizon(vrt.Steps() + 20_000_000)
 				out.Calls++
 				if err != nil {
 					out.Replies["rejected"]++
@@ -391,30 +415,27 @@ func c11BytesJob(a c11Arg) (interface{}, error) {
 						}
 					}
 				}
-				if i%128 == 127 || i == len(jobs)-1 {
-					if e := c11Sanity(w, i); e != "" {
-						out.Viols = append(out.Viols, &report.Violation{Property: "C11", Sig: "bytes|not-serving-afterwards", Detail: fmt.Sprintf("after %s: %s", curDesc, e), Replay: map[string]interface{}{"job": "c11", "arg": a}})
-						start = total
-						return
-					}
+				if e := c11Sanity(w, i); e != "" {
+					out.Viols = append(out.Viols, &report.Violation{Property: "C11", Sig: "bytes|not-serving-afterwards", Detail: fmt.Sprintf("state %s, after %s: %s", a.State, curDesc, e), Replay: map[string]interface{}{"job": "c11", "arg": a}})
+					start = len(jobs)
+					return
 				}
+				vrt.Quiesce()
+				w.Srv.ShutdownNfs()
 			}
-			start = total
+			start = cur + 1
 		})
 		if v := VerdictViolation(&res, "C11", "bytes"); v != nil {
-			v.Detail = curDesc + "\n" + v.Detail
+			v.Detail = fmt.Sprintf("state %s, %s\n%s", a.State, curDesc, v.Detail)
 			v.Replay = map[string]interface{}{"job": "c11", "arg": a}
 			if len(out.Viols) < 10 {
 				out.Viols = append(out.Viols, v)
 			}
 			start = cur + 1
-			if cur < 0 {
+			if cur < 0 || len(out.Viols) >= 4 {
 				break
 			}
 			continue
-		}
-		if total < 0 {
-			break
 		}
 	}
 	return out, nil
@@ -430,7 +451,7 @@ func C11(r *report.Report, tier string) {
 	if tier == "thorough" {
 		states = append(states, "maxsparse")
 	}
-	r.Rule = "structural: per procedure the full product of boundary domains - 16 handles (empty, 3/8/15 bytes, root, file, directory, symlink, dead, inode 0 / 2^64-1 / beyond the table / free / wrong generation, 17 and 64 bytes), 12 names (empty, ., .., existing, new, 111/112/113/255/256/4096 bytes), 11 offsets/sizes up to 2^64-1, counts {0,1,4096,wtmax-1,wtmax,wtmax+1,2^32-1} with data lengths that agree and disagree, cookies, dircount/maxcount, stability and create modes incl. illegal ones; RENAME/LINK over all pairs of handles; in the states populated / tiny full disk (/ maximal sparse file); bytes: for one valid request per procedure (22 NFS + 6 MOUNT) every truncation, an extension, and every substitution of each 32-bit word by {0,1,2,3,63,64,65,0x7fffffff,0xffffffff}, decoded and executed through the registered rpcgen handlers; every structural call meets the named state on a fresh server instance (snapshot) under the controlled scheduler: a reply (or a decode rejection) must arrive - no panic, no deadlock, no runaway (400000 scheduling points per request) - and the sanity script (create, write, read back, lookup, remove, list) must succeed on the same instance afterwards. distinct_nontrivial = distinct (procedure, status) pairs"
+	r.Rule = "structural: per procedure the full product of boundary domains - 16 handles (empty, 3/8/15 bytes, root, file, directory, symlink, dead, inode 0 / 2^64-1 / beyond the table / free / wrong generation, 17 and 64 bytes), 12 names (empty, ., .., existing, new, 111/112/113/255/256/4096 bytes), 11 offsets/sizes up to 2^64-1, counts {0,1,4096,wtmax-1,wtmax,wtmax+1,2^32-1} with data lengths that agree and disagree, cookies, dircount/maxcount, stability and create modes incl. illegal ones; RENAME/LINK over all pairs of handles; in the states populated / tiny full disk (/ maximal sparse file); bytes: for one valid request per procedure (22 NFS + 6 MOUNT) every truncation, an extension, and every substitution of each 32-bit word by {0,1,2,3,63,64,65,0x7fffffff,0xffffffff}, decoded and executed through the registered rpcgen handlers; every call and every mutated message meets the named state on a fresh server instance (snapshot) under the controlled scheduler: a reply (or a decode rejection) must arrive - no panic, no deadlock, no runaway (400000 scheduling points per request) - and the sanity script (create, write, read back, lookup, remove, list) must succeed on the same instance afterwards. distinct_nontrivial = distinct (procedure, status) pairs"
 	var jobs []interface{}
 	var descs []c11Arg
 	for _, st := range states {
